@@ -46,6 +46,8 @@ TARGET = _Target()
 def generate(seed, tier, idx=0):
     rng = common.rng_for(seed, "case")
     ttype = rng.choice(["int", "float", "mixed", "duration", "float"])
+    # int times far beyond 2**53 are exact ints but not representable as floats
+    big = rng.choice([0, 0, 0, 2 ** 53, 10 ** 18 + 7]) if ttype == "int" else 0
     n = rng.choice([3, 4, 5, 6, 8, 10, 15, 20, 30, 45, 60])
     shape = rng.random()
     w = {"add": 5, "readd": 1, "remove": 2, "remove_absent": 0.5, "pop": 2,
@@ -63,6 +65,7 @@ def generate(seed, tier, idx=0):
             t = rng.choice(GRID)
             if ttype == "int":
                 t = int(t) if t != float("inf") else 10 ** 9
+                t += big
             elif ttype == "float":
                 t = float(t)
             elif ttype == "mixed":
@@ -91,7 +94,8 @@ def make_time(t):
 
 
 def key_of(ev):
-    return (float(ev.time), -ev.priority, ev._id)
+    t = ev.time
+    return (t if type(t) is int else float(t), -ev.priority, ev._id)
 
 
 def run_history(case):
